@@ -20,6 +20,7 @@ Section TyInd.
   Hypothesis HTuple : forall ts, Forall P ts -> P (TTuple ts).
   Hypothesis HUnion : forall ts, Forall P ts -> P (TUnion ts).
   Hypothesis HClass : forall c, P (TClass c).
+  Hypothesis HNamed : forall asd names ts ds, Forall P ts -> P (TNamed asd names ts ds).
   Fixpoint ty_ind' (t: ty) : P t :=
     match t with
     | TInt => HInt | TFloat => HFloat | TBool => HBool | TStr => HStr | TNone => HNone | TAny => HAny
@@ -31,6 +32,8 @@ Section TyInd.
     | TUnion ts => HUnion ts ((fix go (l: list ty) : Forall P l :=
                                  match l with [] => Forall_nil _ | x :: r => Forall_cons _ (ty_ind' x) (go r) end) ts)
     | TClass c => HClass c
+    | TNamed asd names ts ds => HNamed asd names ts ds ((fix go (l: list ty) : Forall P l :=
+                                 match l with [] => Forall_nil _ | x :: r => Forall_cons _ (ty_ind' x) (go r) end) ts)
     end.
 End TyInd.
 
@@ -63,17 +66,25 @@ Section Unfold.
                            | SFuel => SFuel | SErr => SErr end.
   Proof. destruct fuel; reflexivity. Qed.
   Lemma sf_tuple fuel ts st :
-    SF fuel (TTuple ts) st = match map_st (SF fuel) ts st with
+    SF fuel (TTuple ts) st = match map_st (SF fuel) ts [] st with
                              | SOk (ss, st1) => SOk (tuple_sk ss, st1)
                              | SFuel => SFuel | SErr => SErr end.
   Proof. destruct fuel; reflexivity. Qed.
   Lemma sf_union fuel ts st :
     SF fuel (TUnion ts) st = match ts with
                              | [] => SErr
-                             | _ => match map_st (SF fuel) ts st with
+                             | _ => match map_st (SF fuel) ts [] st with
                                     | SOk (ss, st1) => SOk (union_sk ss, st1)
                                     | SFuel => SFuel | SErr => SErr end
                              end.
+  Proof. destruct fuel; reflexivity. Qed.
+  Lemma sf_named fuel asd names ts ds st :
+    SF fuel (TNamed asd names ts ds) st =
+    if str_nodup names && Nat.eqb (List.length names) (List.length ts)
+    then match map_st (SF fuel) ts ds st with
+         | SOk (ss, st1) => SOk (if asd then ntobj_sk (combine names ss) names else ntuple_sk ss, st1)
+         | SFuel => SFuel | SErr => SErr end
+    else SErr.
   Proof. destruct fuel; reflexivity. Qed.
   Lemma sf_class0 c st : SF 0 (TClass c) st = SFuel.
   Proof. reflexivity. Qed.
@@ -127,6 +138,21 @@ Proof.
     + right; exact IH.
 Qed.
 
+Lemma str_mem_false_notin s l : str_mem s l = false -> ~ In s l.
+Proof.
+  induction l as [|x r IH]; simpl; [tauto|].
+  intros H [Hx|Hr].
+  - subst. rewrite String.eqb_refl in H. discriminate.
+  - apply orb_false_iff in H. destruct H as [_ H]. exact (IH H Hr).
+Qed.
+Lemma str_nodup_true l : str_nodup l = true -> NoDup l.
+Proof.
+  induction l as [|x r IH]; simpl; [constructor|].
+  intros H. apply andb_true_iff in H. destruct H as [H1 H2]. constructor.
+  - apply str_mem_false_notin. destruct (str_mem x r); [discriminate|reflexivity].
+  - exact (IH H2).
+Qed.
+
 (* ------------------------------------------------------------------ *)
 (* a generic invariant: any document predicate G (relative to the keys of the definitions
    collected so far) that is closed under the constructors of the model holds for every
@@ -148,6 +174,8 @@ Section Generic.
   Hypothesis G_ref : forall ks c, In c ks -> G ks (render (ref_sk (cfg.(c_prefix) ++ "/" ++ c))).
   Hypothesis G_obj : forall ks c props req,
       (forall k d, In (k, d) props -> G ks d) -> NoDup req -> G ks (render (obj_sk c props req)).
+  Hypothesis G_ntobj : forall ks props req,
+      (forall k d, In (k, d) props -> G ks d) -> NoDup req -> G ks (render (ntobj_sk props req)).
   Hypothesis G_default : forall ks s d, G ks (render s) -> G ks (render (set_default s d)).
   Hypothesis G_defs : forall ks s st,
       G ks (render s) -> (forall c d, In (c, d) st -> G ks d) -> G ks (render (set_defs s st)).
@@ -166,16 +194,16 @@ Section Generic.
   Lemma map_st_ok rec ts :
     Forall (fun t => forall st s st', rec t st = SOk (s, st') -> Inv st ->
                                       Inv st' /\ G (keys st') (render s) /\ incl (keys st) (keys st')) ts ->
-    forall st ss st', map_st rec ts st = SOk (ss, st') -> Inv st ->
+    forall ds st ss st', map_st rec ts ds st = SOk (ss, st') -> Inv st ->
                       Inv st' /\ Forall (G (keys st')) ss /\ incl (keys st) (keys st') /\ List.length ss = List.length ts.
   Proof.
-    induction 1 as [|t r Ht Hr IH]; simpl; intros st ss st' Hm HI.
+    induction 1 as [|t r Ht Hr IH]; simpl; intros ds st ss st' Hm HI.
     - inversion Hm; subst. repeat split; auto using incl_refl.
     - destruct (rec t st) as [[s st1]| |] eqn:E1; try discriminate.
-      destruct (map_st rec r st1) as [[ss2 st2]| |] eqn:E2; try discriminate.
+      destruct (map_st rec r (tl ds) st1) as [[ss2 st2]| |] eqn:E2; try discriminate.
       inversion Hm; subst.
       destruct (Ht _ _ _ E1 HI) as (HI1 & HG1 & Hk1).
-      destruct (IH _ _ _ E2 HI1) as (HI2 & HF2 & Hk2 & Hlen).
+      destruct (IH _ _ _ _ E2 HI1) as (HI2 & HF2 & Hk2 & Hlen).
       repeat split; auto.
       + constructor; auto. eapply G_mono; eauto.
       + eapply incl_tran; eauto.
@@ -227,13 +255,22 @@ Section Generic.
       + rewrite sf_dict in Hs. destruct (schema_fuel E cfg 0 t st) as [[s1 st1]| |] eqn:E1; try discriminate.
         inversion Hs; subst. destruct (IHt _ _ _ E1 HI) as (A & B & C). repeat split; auto.
         apply G_dict. apply or_none_ok. exact B.
-      + rewrite sf_tuple in Hs. destruct (map_st (schema_fuel E cfg 0) ts st) as [[ss st1]| |] eqn:E1; try discriminate.
-        inversion Hs; subst. destruct (map_st_ok _ _ H _ _ _ E1 HI) as (A & B & C & _). repeat split; auto.
+      + rewrite sf_tuple in Hs. destruct (map_st (schema_fuel E cfg 0) ts [] st) as [[ss st1]| |] eqn:E1; try discriminate.
+        inversion Hs; subst. destruct (map_st_ok _ _ H _ _ _ _ E1 HI) as (A & B & C & _). repeat split; auto.
       + rewrite sf_union in Hs. destruct ts as [|t0 tr]; try discriminate.
-        destruct (map_st (schema_fuel E cfg 0) (t0 :: tr) st) as [[ss st1]| |] eqn:E1; try discriminate.
-        inversion Hs; subst. destruct (map_st_ok _ _ H _ _ _ E1 HI) as (A & B & C & D). repeat split; auto.
+        destruct (map_st (schema_fuel E cfg 0) (t0 :: tr) [] st) as [[ss st1]| |] eqn:E1; try discriminate.
+        inversion Hs; subst. destruct (map_st_ok _ _ H _ _ _ _ E1 HI) as (A & B & C & D). repeat split; auto.
         apply G_union; auto. intros ->. discriminate.
       + rewrite sf_class0 in Hs. discriminate.
+      + rewrite sf_named in Hs.
+        destruct (str_nodup names && Nat.eqb (List.length names) (List.length ts)) eqn:Eg; try discriminate.
+        destruct (map_st (schema_fuel E cfg 0) ts ds st) as [[ss st1]| |] eqn:E1; try discriminate.
+        inversion Hs; subst. destruct (map_st_ok _ _ H _ _ _ _ E1 HI) as (A & B & C & D). repeat split; auto.
+        apply andb_true_iff in Eg. destruct Eg as [Eg1 Eg2].
+        destruct asd.
+        * apply G_ntobj; [|apply str_nodup_true; exact Eg1].
+          intros k d Hin. apply in_combine_r in Hin. rewrite Forall_forall in B. apply B. exact Hin.
+        * unfold ntuple_sk. destruct ss as [|x r]; [apply G_arr; intros d Hd; discriminate|apply G_tuple; exact B].
     - intros t. induction t using ty_ind'; intros st s st' Hs HI;
         try (destruct (sf_scalar E cfg (S fuel) st) as (H1 & H2 & H3 & H4 & H5 & H6);
              first [rewrite H1 in Hs | rewrite H2 in Hs | rewrite H3 in Hs | rewrite H4 in Hs | rewrite H5 in Hs | rewrite H6 in Hs];
@@ -247,11 +284,11 @@ Section Generic.
       + rewrite sf_dict in Hs. destruct (schema_fuel E cfg (S fuel) t st) as [[s1 st1]| |] eqn:E1; try discriminate.
         inversion Hs; subst. destruct (IHt _ _ _ E1 HI) as (A & B & C). repeat split; auto.
         apply G_dict. apply or_none_ok. exact B.
-      + rewrite sf_tuple in Hs. destruct (map_st (schema_fuel E cfg (S fuel)) ts st) as [[ss st1]| |] eqn:E1; try discriminate.
-        inversion Hs; subst. destruct (map_st_ok _ _ H _ _ _ E1 HI) as (A & B & C & _). repeat split; auto.
+      + rewrite sf_tuple in Hs. destruct (map_st (schema_fuel E cfg (S fuel)) ts [] st) as [[ss st1]| |] eqn:E1; try discriminate.
+        inversion Hs; subst. destruct (map_st_ok _ _ H _ _ _ _ E1 HI) as (A & B & C & _). repeat split; auto.
       + rewrite sf_union in Hs. destruct ts as [|t0 tr]; try discriminate.
-        destruct (map_st (schema_fuel E cfg (S fuel)) (t0 :: tr) st) as [[ss st1]| |] eqn:E1; try discriminate.
-        inversion Hs; subst. destruct (map_st_ok _ _ H _ _ _ E1 HI) as (A & B & C & D). repeat split; auto.
+        destruct (map_st (schema_fuel E cfg (S fuel)) (t0 :: tr) [] st) as [[ss st1]| |] eqn:E1; try discriminate.
+        inversion Hs; subst. destruct (map_st_ok _ _ H _ _ _ _ E1 HI) as (A & B & C & D). repeat split; auto.
         apply G_union; auto. intros ->. discriminate.
       + rewrite sf_classS in Hs. destruct (lookup c E) as [fs|] eqn:El; try discriminate.
         destruct (fields_fold (schema_fuel E cfg fuel) fs [] [] st) as [[[props req] st1]| |] eqn:Ef; try discriminate.
@@ -266,6 +303,15 @@ Section Generic.
           -- inversion Hs; subst. repeat split; auto.
         * intros k d [].
         * simpl. apply Hnodup in El. exact El.
+      + rewrite sf_named in Hs.
+        destruct (str_nodup names && Nat.eqb (List.length names) (List.length ts)) eqn:Eg; try discriminate.
+        destruct (map_st (schema_fuel E cfg (S fuel)) ts ds st) as [[ss st1]| |] eqn:E1; try discriminate.
+        inversion Hs; subst. destruct (map_st_ok _ _ H _ _ _ _ E1 HI) as (A & B & C & D). repeat split; auto.
+        apply andb_true_iff in Eg. destruct Eg as [Eg1 Eg2].
+        destruct asd.
+        * apply G_ntobj; [|apply str_nodup_true; exact Eg1].
+          intros k d Hin. apply in_combine_r in Hin. rewrite Forall_forall in B. apply B. exact Hin.
+        * unfold ntuple_sk. destruct ss as [|x r]; [apply G_arr; intros d Hd; discriminate|apply G_tuple; exact B].
   Qed.
 
   Theorem build_inv fuel wd uri t st d st' :
